@@ -194,10 +194,18 @@ CLAIMED = {
        'result, under the stated assumption that error objects carry 4xx/5xx replies: a 2xx SMTP reply / 2xx HTTP status implies every result is '
        'an id, hence every write succeeded (Queue) / the relay delivered to every recipient (ProxyQueue); any failed write or relay yields a '
        '4xx/5xx reply and HTTP status; another exception yields 421 / 500; in the event order of Queue.enqueue the reply is enabled only when no '
-       'write is pending and every one of the n writes has its result. Tied to the code by the real SmtpEdge (client socket on a socketpair), '
+       'write is pending and every one of the n writes has its result. One enqueue call end to end (Model/Ingress.lean = Policy.runPolicies of C16 + the '
+       'write outcomes + the reply choice + the labels of the composed queue machine Model/QueueM.lean of C01/C12): '
+       'ack_means_custody_of_every_recipient (every policy chain, envelope, vector of write outcomes, and every history of the queue machine in '
+       'which the writes of the call have happened, whatever else happened before, between and after: after a 2xx every recipient of the message '
+       'as the edge received it belongs to a message the storage took in this call, known to the machine with exactly the recipients of one of '
+       'the envelopes the policies produced; no_recipient_in_two_envelopes) and acknowledged_recipient_never_lost (C02 o C16 o C01: from then on the '
+       'recipient is counted in exactly one of delivered / failed for good (and bounced) / outstanding with a next step). Tied to the code by the real SmtpEdge (client socket on a socketpair), '
        'WsgiEdge (WSGI call and pywsgi on loopback), Queue + RecipientDomainSplit over a store whose k-th write fails or is held, and ProxyQueue '
        'over scripted relay results: all outcome vectors for n <= 3, storage contents read at the instant the reply arrives, reply absent while a '
-       'write is held.',
+       'write is held; and 400 (thorough 6000) random enqueue calls through a real edge into a real Queue with chains of the built-in policies, '
+       'failing writes and a relay that keeps attempts in flight, compared with the composition: reply, envelopes, stored recipients and attempts per id, '
+       'hand-offs to the relay in order, active ids.',
   ref='6/C02', technique='Lean 4 proof (case analysis of the reply choice over arbitrary result lists; invariant of the enqueue event order) + differential correspondence vs real SmtpEdge/WsgiEdge/Queue/ProxyQueue'),
  'C06': dict(
   text='PARTIAL (the SMTP hop is one end-to-end theorem about the client\'s bytes run through the server\'s command loop with accepting validators; the HTTP hop is one end-to-end theorem over the header list as the WSGI server presents it (http.client / pywsgi framing itself is modelled, not verified); TLS and '
